@@ -434,7 +434,7 @@ class C01(Prop):
 
     def cases(self, tier, rng):
         big = tier == "thorough"
-        return [self.one_case(rng, big) for _ in range(6000 if big else 1500)] + [self.many_fields_case()]
+        return [self.one_case(rng, big) for _ in range(12000 if big else 2500)] + [self.many_fields_case()]
 
     def shrink_candidates(self, line):
         """Smaller lines that are still complete scenarios (a line that merely leaves something pending — a
